@@ -11,6 +11,7 @@ OVERLAY = {
     PKG + "/zz_c07_gen_verif_test.go": "harness/overlay/basichost/c07_gen_verif_test.go",
     PKG + "/zz_c07_main_verif_test.go": "harness/overlay/basichost/c07_main_verif_test.go",
     PKG + "/zz_c07_blank_verif_test.go": "harness/overlay/basichost/c07_blank_verif_test.go",
+    PKG + "/zz_c07_park_verif_test.go": "harness/overlay/basichost/c07_park_verif_test.go",
 }
 NAMES = ["/c07/a", "/c07/a/1.0.0", "/c07/a/1.1.0", "/c07/a/2.0.0", "/c07/ab", "/c07/b", "/c07/b/1.0.0", "/c07"]
 
@@ -92,7 +93,7 @@ def parse(t):
             i += 1
             k = lst()
             ops.append({"op": "SetKnowledge", "k": k, "know": lst()})
-        elif c == 5:
+        elif c in (5, 9):
             n = t[i + 1]
             i += 2
             reqs, modes = [], []
@@ -100,6 +101,7 @@ def parse(t):
                 modes.append(t[i])
                 i += 1
                 reqs.append(lst())
+            mx = lst() if c == 9 else None
             res = []
             for _ in range(n):
                 res.append(dict(zip(("res", "dp", "use", "h", "lp", "ninv", "hreg", "hlp"), t[i:i + 8])))
@@ -110,7 +112,9 @@ def parse(t):
             kn = lst()
             sc = t[i:i + 2 * U]
             i += 2 * U
-            ops.append({"op": "Open", "reqs": reqs, "allow_limited": [m & 1 for m in modes],
+            ops.append({"op": "Open" if c == 5 else "ParkedOpens(registered in this order; then the listener dials directly)",
+                        "context_ends_while_parked": [(m >> 5) & 1 for m in modes], "listener_advertises": mx,
+                        "reqs": reqs, "allow_limited": [m & 1 for m in modes],
                         "late_exchange": [(m >> 1) & 1 for m in modes],
                         "first_ops": [FOPS[(m >> 2) & 7] for m in modes], "results": res, "unattributed": un, "know": kn,
                         "outD": sc[:U], "inL": sc[U:]})
@@ -151,7 +155,7 @@ def nontrivial(line):
         return False
     ok = bad = False
     for o in ops:
-        if o["op"] == "Open":
+        if o["op"].startswith(("Open", "Parked")):
             for r in o["results"]:
                 if r["res"] == 0 and r["use"] == 1:
                     ok = True
@@ -178,10 +182,14 @@ def key(tag, toks, d):
                 tab[p["name"]] = p["accepts"]
             elif p["op"] == "RemoveStreamHandler":
                 tab.pop(p["name"], None)
-            elif p["op"] in ("SetKnowledge", "Open"):
+            elif p["op"] in ("SetKnowledge", "Open") or p["op"].startswith("Parked"):
                 know = p["know"]
             elif p["op"] == "Reconnect":
                 know = ["fresh"] + p["mux"]
+        if o["op"].startswith("Parked"):
+            obs = [[r[k] for k in ("res", "dp", "use", "lp", "ninv", "hlp")] for r in o["results"]]
+            return "C07:parked-opens:table=%s:advertised=%s:reqs=%s:ctx_ends=%s:obs=%s:un=%d" % (
+                list(tab.items()), o["listener_advertises"], o["reqs"], o["context_ends_while_parked"], obs, len(o["unattributed"]))
         if o["op"] == "Open":
             obs = [[r[k] for k in ("res", "dp", "use", "lp", "ninv", "hlp")] for r in o["results"]]
             return "C07:open:rcmgr=%d:limited=%d:table=%s:know=%s:reqs=%s:allow=%s:obs=%s:un=%d" % (
@@ -200,7 +208,10 @@ def what(tag, toks, d):
     try:
         _, ops = parse(toks)
         o = ops[d[1]]
-        if o["op"] == "Open":
+        if o["op"].startswith("Parked"):
+            op = ": NewStream%s parked on the limited connection, context ends while parked %s, then a direct connection -> %s" % (
+                o["reqs"], o["context_ends_while_parked"], [[r[k] for k in ("res", "dp", "use", "lp")] for r in o["results"]])
+        elif o["op"] == "Open":
             op = ": NewStream%s first ops %s -> %s" % (o["reqs"], o["first_ops"],
                                                       [[r[k] for k in ("res", "dp", "use", "lp")] for r in o["results"]])
         else:
@@ -218,10 +229,11 @@ if __name__ == "__main__":
         "the dialer's knowledge is whatever the peerstore holds: identify push is switched off on both hosts so that the harness controls it (unknown / accurate / stale snapshot / arbitrary) together with NewStream's own AddProtocols",
         "application bytes written on the optimistic path before the handshake completed are not themselves a well-formed multistream token naming a protocol the listener serves (the payload is 9 bytes: 0x00 or 0x20, then the nonce)",
         "concurrent opens: the handler table is fixed during a batch; the interleaving of peerstore reads/AddProtocols is a free parameter of the model (every subset), scope limits inside a concurrent batch are modelled in index order only (the generator keeps limited protocols out of concurrent batches)",
-        "limited vs direct: one world reaches the listener only through a circuit-v2 relay (limited connection); the model has the gate of Swarm/Conn.NewStream only (limited and context without WithAllowLimitedConn -> the open fails); waiting for / upgrading to a direct connection is C12's subject; every open goes over the single connection between the two hosts",
+        "limited vs direct: one world reaches the listener only through a circuit-v2 relay (limited connection); the model has the gate of Swarm/Conn.NewStream (limited and context without WithAllowLimitedConn -> the open fails) and the waiter list of Swarm.waitForDirectConn for opens parked until a direct connection exists (register in order, a context that ends removes its own entry only, the direct connection wakes every entry left); how a direct connection comes about (hole punching, connection reversal) is C12's subject: in the park op the listener simply dials the dialer; outside the park op every open goes over the single connection between the two hosts",
+        "park op: the harness sees each open waiting in waitForDirectConn (goroutine dump) before the next one starts, ends a context by cancelling it (the code waits on ctx.Done(), a deadline and a cancellation are the same event) and awaits the direct connection; opens whose context it does not end carry a 10 min deadline, so 'still within its deadline when the direct connection appears' holds by construction; an open not woken within 8 s after the direct connection is up and identified is recorded as failed (the harness deadline; would show as a violation under extreme load); identify on the direct connection replaces the dialer's knowledge by what the listener advertises (as in the reconnect op) - the harness first asks the listener's identify service over the limited connection until its snapshot has caught up with the muxer, so no stale snapshot is delivered; the streams obtained are closed and the direct connection is closed again before the next op",
         "the dialer's first operations are not a parameter of the model: whatever their order, a stream bound to a served protocol must work (answer received, or for CloseRead-first the handler's own record of the nonce); Close as the very first operation is driven in the worlds without scope columns (mocknet) and judged on the listener (the handler registered for the protocol runs and finds EOF; the stream is recorded as obtained and closed at once); half-close variants run on the TCP worlds only (mocknet drops a half-closed stream from the connection); a handler whose dialer half-closed without sending answers all the same (sequential opens only)",
         "SetProtocol-again is judged only where real resource managers run (a stream scope attached to a protocol refuses re-attachment and the label must stay); without scopes (mocknet) the label is overwritten by design and the op is not generated",
-        "liveness clause: with a protocol in common the open must produce a working stream unless (a) a requested ID is listed by the dialer's earlier knowledge and no longer served, (b) a requested protocol's scope is at its limit on either side, or (c) the only connection is limited and the caller did not opt in; a harness deadline (4 s per open, 6 s per read) under extreme load would show as a violation",
+        "liveness clause: with a protocol in common the open must produce a working stream unless (a) a requested ID is listed by the dialer's earlier knowledge and no longer served, (b) a requested protocol's scope is at its limit on either side, or (c) the only connection is limited and the caller did not opt in - for an open parked until a direct connection exists (c) holds only if its own context ended before that connection appeared; a harness deadline (4 s per open, 6 s per read) under extreme load would show as a violation",
         "scope clause is exact: each protocol scope changes by precisely the obtained streams bound to it (refused or failed streams are charged nowhere); per-peer protocol limits are used on the listener for odd IDs with the protocol-wide limit one higher, which with a single remote peer gives the same effective limit the model uses",
         "a BlankHost dialer (world 6) is modelled as NewStream without the optimistic path; no reconnects there (it does not wait for identify and does not use the knowledge)",
         "reconnect: the model takes the dialer's knowledge on a fresh connection to be what the listener's muxer advertises (identify replaces the peerstore entry and NewStream waits for it); the harness keeps the handler table fixed between a racing reconnect and the open that follows it",
@@ -241,6 +253,7 @@ if __name__ == "__main__":
              "per-peer protocol limits with a protocol-wide limit one higher. The dialer's first operations on the returned stream are drawn "
              "from {Write,Read | Read under way,Write | SetDeadline,Read,Write | SetDeadline,Write,Read | CloseWrite,Read | "
              "Write,CloseWrite,Read | CloseRead,Write | Close (mocknet worlds, judged on the listener)}; SetProtocol is tried once more on either end of held streams. "
+             "In the relay world also: 1-4 opens without WithAllowLimitedConn parked one after the other in Swarm.waitForDirectConn (each seen waiting before the next starts), the contexts of a chosen subset ended while parked (in any order; directed: the first-parked gives up, the last-parked does not), then the listener dials the dialer directly: every open still parked is judged like any other open (liveness, agreement, accounting), the others are excused. "
              "Further ops: the connection is replaced below the host (swarm DialPeer from either side) with the next open racing the new "
              "connection's identify; opens whose application goes on exchanging bytes in both directions later (after the negotiation "
              "timeout where it is short). "
